@@ -18,6 +18,8 @@ static int        delivered[MAXU], lost[MAXU];
 static int        accept_seq;
 static int        last_seq_on_pipe[MAXP];
 static int        sock_closed;
+static int        blocked_at_post[MAXU];
+static int        pend_at_post[MAXU][MAXU]; /* [j][i]: send i was still pending when send j was posted */
 
 static int
 id_to_user(int id)
@@ -69,6 +71,14 @@ monitor(void)
 			CHECK(places == 1, "accepted message is in exactly one place: buffer, one connection, delivered (or lost with its connection)");
 		}
 	}
+	/* senders blocked by back-pressure are admitted in the order they called send (so that messages of one application
+	 * thread of control, and of several that hand over explicitly, keep their order on the connection) */
+	for (int i = 0; i < MAXU; i++)
+		for (int j = 0; j < MAXU; j++)
+			if (i != j && uaio_used[i] && uaio_used[j] && pend_at_post[j][i] && blocked_at_post[j] && accepted[i] && accepted[j]) {
+				/* both waited in the queue of blocked senders at the same time */
+				CHECK(accepted[i] < accepted[j], "of two senders blocked at the same time the one that blocked first is admitted first");
+			}
 	/* hand-off invariants */
 	if (!nni_list_empty(&sock.pl)) {
 		CHECK(nni_lmq_empty(&sock.wq) && nni_list_empty(&sock.aq), "a ready pipe implies nothing is buffered or blocked");
@@ -104,6 +114,8 @@ ev_send(int i, int blocking)
 	if (kstop)
 		return;
 	bool can = !nni_list_empty(&sock.pl) || !nni_lmq_full(&sock.wq);
+	for (int k = 0; k < MAXU; k++)
+		pend_at_post[i][k] = (k != i && uaio_used[k] && !KDONE(k));
 	kuaio_prepare(i, blocking);
 	umsg[i]    = kmsg(2);
 	umsg_id[i] = umsg[i]->id;
@@ -118,6 +130,8 @@ ev_send(int i, int blocking)
 		WITNESS("nonblocking send refused");
 	} else {
 		CHECK(!KDONE(i), "blocking send with no room waits (back-pressure), it is not dropped");
+		blocked_at_post[i] = 1;
+		KWAIT_POST(i, 0);
 		WITNESS("send blocks");
 	}
 	monitor();
